@@ -30,9 +30,13 @@ type c20op struct {
 }
 
 func c20Ops() []c20op {
-	ops := []c20op{{name: "Arrive(template)", kind: "arrive-template"}, {name: "Arrive(data, one field of every type)", kind: "arrive-every"}, {name: "Arrive(data, 2 records)", kind: "arrive-two"}}
+	ops := []c20op{{name: "Arrive(template)", kind: "arrive-template"}, {name: "Arrive(data, one field of every type)", kind: "arrive-every"}, {name: "Arrive(data, 2 records)", kind: "arrive-two"},
+		{name: "Arrive(data, 3000 records)", kind: "arrive-big"}}
 	for _, f := range []string{"json", "text"} {
 		for _, c := range []string{"", "0", "1", "2", "4096", "4097", "-1", "x"} {
+			if f == "text" && c == "x" {
+				c = "-9223372036854775809" // a negative count that does not even fit an int: invalid like -1
+			}
 			ops = append(ops, c20op{name: fmt.Sprintf("GET /records?count=%s&format=%s", c, f), kind: "get", count: c, format: f})
 		}
 	}
@@ -104,6 +108,19 @@ func c20message(kind string) (*entities.Message, []c20fieldWant) {
 			{"mibObjectValueInteger", "-5"}, {"absoluteError", "1.5"}, {"dataRecordsReliability", "true"}, {"sourceMacAddress", "02:00:00:00:00:09"}, {"interfaceName", "eth-verif"},
 			{"flowStartSeconds", "1700000001"}, {"flowStartMilliseconds", "1700000001234"}, {"sourceIPv4Address", "10.1.2.3"}, {"sourceIPv6Address", "2001:db8::7"},
 			{"ipHeaderPacketSection", "OCTETS"}, {"sourcePodName", "pod-verif 100%d%20 /a%2Fb %s %%\x01\a\x7f\"q\""}}
+	case "arrive-big":
+		// a legal message (about 40 kB on the wire) whose rendering is several times larger
+		set.PrepareSet(entities.Data, 257)
+		for r := 0; r < 3000; r++ {
+			els := []entities.InfoElementWithValue{
+				entities.NewUnsigned16InfoElement(c20ie("sourceTransportPort", 0), uint16(r)),
+				entities.NewStringInfoElement(c20ie("interfaceName", 0), fmt.Sprintf("big-%d-%d", c20seq, r)),
+			}
+			set.AddRecordV2(els, 257)
+			if r == 0 || r == 1499 || r == 2999 {
+				want = append(want, c20fieldWant{"sourceTransportPort", fmt.Sprint(r)}, c20fieldWant{"interfaceName", fmt.Sprintf("big-%d-%d", c20seq, r)})
+			}
+		}
 	case "arrive-two":
 		set.PrepareSet(entities.Data, 257)
 		for r := 0; r < 2; r++ {
@@ -162,7 +179,7 @@ func (s *c20sys) apply(opi int) (v *c20viol) {
 		}
 	}()
 	switch op.kind {
-	case "arrive-template", "arrive-every", "arrive-two":
+	case "arrive-template", "arrive-every", "arrive-two", "arrive-big":
 		msg, want := c20message(op.kind)
 		addIPFIXMessage(msg)
 		snap := s.snapshot()
